@@ -183,6 +183,13 @@ class DULServiceProvider(threading.Thread):
         """Sets termination flag for event loop and waits for thread to exit."""
         self.is_killed = True
         self._is_killed.wait()
+        if self.dul_socket:
+            # loop was stopped before connection was closed by the state machine
+            try:
+                self.dul_socket.close()
+            except socket.error:
+                pass
+            self.dul_socket = None
 
     def run(self):
         try:
@@ -208,13 +215,6 @@ class DULServiceProvider(threading.Thread):
             self.to_service_user.put(pdu.AAbortPDU(source=0, reason_diag=0))
             raise
         finally:
-            if self.dul_socket:
-                # loop was stopped before connection was closed by the state machine
-                try:
-                    self.dul_socket.close()
-                except socket.error:
-                    pass
-                self.dul_socket = None
             self._is_killed.set()
 
     def _check_network(self):
